@@ -15,7 +15,7 @@ import vlib
 
 LEVEL = "model_checking"
 
-ALPHA = ["a", "SP", "NL", "TAB", "$", "`", "DQ", "'", "\\", "*", "?", "[", "]", "~", "#", ";", "&", "|", "<", "(", "{", "=", ":", "!", "-", "/", "U1"]
+ALPHA = ["a", "SP", "NL", "TAB", "$", "`", "DQ", "'", "\\", "*", "?", "[", "]", "~", "#", ";", "&", "|", "<", "(", "{", "=", ":", "!", "-", "/", "}", "1", "CR", "U1"]
 
 
 def tla_seq(xs):
@@ -23,7 +23,7 @@ def tla_seq(xs):
 
 
 def run(R):
-    R.rule = ("cases = (string, spelling, mode): every string up to MaxLen symbols over 27 characters (all shell specials, blank, tab, "
+    R.rule = ("cases = (string, spelling, mode): every string up to MaxLen symbols over 30 characters (all shell specials, blank, tab, "
               "newline, a multi-byte character) x {single, double, backslash, mixed} x {default, Arith, Assign, Literal, Quote, "
               "Pattern}; exhaustive, plus seeded random strings of 4-8 symbols; distinct_nontrivial = distinct strings containing at least one character that is special to the shell")
     R.assumptions = ["the environment is fixed and adversarial (IFS 'a :<tab><nl>*$', HOME, 3 positional parameters, files aa b * ? [ ~ ..., a directory a holding a and *)",
@@ -67,13 +67,17 @@ def run(R):
         wrong = {}
         for st, per in o["obs"].items():
             for m, f in per.items():
+                if m == "realmatch":
+                    if f != [["self"]]:
+                        wrong["%s/realmatch" % st] = dict(spelling=o["text"][st], pattern_Match_hits=f)
+                    continue
                 if m != "pattern" and f != [o["s"]]:
                     wrong["%s/%s" % (st, m)] = dict(spelling=o["text"][st], fields=f)
                 if m == "pattern":
                     wrong.setdefault("%s/pattern" % st, dict(spelling=o["text"][st], pattern=f))
         ex = dict(string=o["s"], panic=o["panic"], wrong=dict(list(wrong.items())[:4]))
         R.violation("quoted text not preserved: %s" % json.dumps(ex, ensure_ascii=False)[:1500],
-                    dict(kind="quote", case={k2: cases[k][k2] for k2 in ("s", "sq", "dq", "bs", "mix")}), coords=dict(s="".join(o["s"])))
+                    dict(kind="quote", case={k2: cases[k][k2] for k2 in ("s", "sq", "dq", "bs", "mix", "pert")}), coords=dict(s="".join(o["s"])))
     R.exhaustive = True
     R.evaluations = len(obs) * 24
     R.traces = len(obs)
